@@ -134,10 +134,29 @@ const PRE_BODY_MARKERS: [&str; 22] = [
     "OwnNotFound",
 ];
 
+/// (blueprint, function) whose authorization failed, from the Debug rendering of an AuthError
+fn auth_failed_for(full: &str) -> Option<(String, String)> {
+    let i = full.find("fn_identifier")?;
+    let rest = &full[i..];
+    // BlueprintId renders as `<package address>:<BlueprintName>`
+    let bp = rest.split(":<").nth(1)?.split('>').next()?.to_string();
+    let ident = rest.split("ident: \"").nth(1)?.split('"').next()?.to_string();
+    Some((bp, ident))
+}
+
 /// true if the failure of the call under test arose before the blueprint body was entered
-fn is_pre_body(class: &str, full: &str) -> bool {
+fn is_pre_body(class: &str, full: &str, t: &Target) -> bool {
     if full.contains("Trap") && full.contains("Native") {
         return false;
+    }
+    if class.contains("AuthError") {
+        // an authorization failure of a *nested* call means the body under test was running
+        if let Some((bp, ident)) = auth_failed_for(full) {
+            if bp != t.blueprint || ident != t.function {
+                return false;
+            }
+        }
+        return true;
     }
     if class.contains("TypeCheckError") {
         // input payload validation happens before dispatch, output validation after the body ran
@@ -273,14 +292,19 @@ impl<'a> Fuzzer<'a> {
             return;
         };
         // ---- signers
-        let signer_kind = match rng.below(100) {
+        let signer_kind = if t.system_only && rng.chance(3, 5) {
+            "auth-disabled"
+        } else {
+            match rng.below(100) {
             0..=59 => "owners",
             60..=81 => "owners+system",
             82..=90 => "none",
             _ => "other-key",
+            }
         };
+        let auth_disabled = signer_kind == "auth-disabled";
         let mut proofs: Vec<NonFungibleGlobalId> = match signer_kind {
-            "owners" | "owners+system" => w.all_proofs(),
+            "owners" | "owners+system" | "auth-disabled" => w.all_proofs(),
             "none" => vec![],
             _ => vec![w.keys[2].badge()],
         };
@@ -398,7 +422,7 @@ impl<'a> Fuzzer<'a> {
         // ---- assemble
         let a0 = w.keys[0].account;
         let mut ins: Vec<InstructionV1> = vec![call_method(FAUCET.as_node_id(), "lock_fee", tuple(vec![mdec(dec!(5000))]))];
-        let signed_by_owner = signer_kind.starts_with("owners");
+        let signed_by_owner = signer_kind.starts_with("owners") || auth_disabled;
         if signed_by_owner && (rng.chance(1, 2) || t.blueprint == "Validator" || t.blueprint == "Identity" || t.blueprint == "AccountLocker") {
             for (res, ids) in &w.badges {
                 match ids {
@@ -431,8 +455,11 @@ impl<'a> Fuzzer<'a> {
             "rv-fuzz case seed={} shard={} world={} epoch={} index={} target={}::{} route={} mode={} signers={} call_instruction_index={}",
             id.seed, id.shard, id.world, id.epoch, id.index, t.package_name, key, route.name(), mode, signer_kind, call_index
         );
-        let label = format!("fuzz:{}", route.name());
-        // ---- execute
+        let label = format!("fuzz:{}{}", route.name(), if auth_disabled { ":auth-disabled" } else { "" });
+        // ---- execute. Calls made with the auth module switched off are observed on a scratch shard: what
+        // the monitors say about them is logged, not counted as a violation (no transaction can make them)
+        let mut scratch = Shard::new(shard.index, &shard.prop, shard.tier, shard.deadline);
+        let sh: &mut Shard = if auth_disabled { &mut scratch } else { &mut *shard };
         let r = if let Some((only, constraints)) = v2_constraints {
             // V2-only instruction: a fixed small manifest around it
             let mut mb = ManifestBuilder::new_v2().lock_fee_from_faucet();
@@ -444,12 +471,26 @@ impl<'a> Fuzzer<'a> {
             mb = mb.call_function(w.proxy_pkg, proxy::BP, "mark", (2u32,)).try_deposit_entire_worktop_or_abort(a0, None);
             let m = mb.build_no_validate();
             let desc = format!("{header}\nV2 manifest: ASSERT_WORKTOP_RESOURCES_{} {:?}", if only { "ONLY" } else { "INCLUDE" }, constraints);
-            w.ledger.exec(shard, &label, m, proofs, desc)
+            w.ledger.exec_cfg(sh, &label, m, proofs, desc, auth_disabled)
         } else {
             let manifest = TransactionManifestV1 { instructions: ins, blobs: blob_map, object_names: ManifestObjectNames::Unknown };
-            let desc = describe(shard, &header, &manifest, &proofs);
-            w.ledger.exec(shard, &label, manifest, proofs, desc)
+            if manifest_encode(&manifest.instructions).is_err() {
+                // deeper / larger than the manifest encoding allows: not a transaction
+                sh.count("cases:not_encodable");
+                return;
+            }
+            let desc = describe(sh, &header, &manifest, &proofs);
+            w.ledger.exec_cfg(sh, &label, manifest, proofs, desc, auth_disabled)
         };
+        if auth_disabled {
+            let ev = scratch.evaluations;
+            let logged: Vec<(String, String)> = scratch.violations.iter().map(|v| (v.prop.clone(), v.signature.clone())).collect();
+            shard.evaluations += ev;
+            for (p, sig) in logged {
+                shard.count(&format!("logged:auth-disabled:{p}:{sig}"));
+                shard.seen("observations_with_auth_disabled", &format!("{p}:{sig} [{key}]"));
+            }
+        }
         // ---- classify
         shard.count("cases");
         shard.count(&format!("mode:{mode}"));
@@ -474,13 +515,18 @@ impl<'a> Fuzzer<'a> {
         let has_export = |e: &str| breakdown.contains(&format!("RunNativeCode::{e}")) || breakdown.contains(&format!("RunWasmCode::{e}"));
         let m1 = r.marks.contains(&1);
         let m2 = r.marks.contains(&2);
+        if let Ok(tr) = std::env::var("RVFUZZ_TRACE") {
+            if key.contains(&tr) {
+                eprintln!("[trace] {header}\n        marks={:?} outcome={cls}\n        error={}", r.marks, full.chars().take(700).collect::<String>());
+            }
+        }
         let phase = if m2 {
             row.ok += 1;
             row.class("ok");
             "ok"
         } else if m1 {
             let short = cls.splitn(2, ':').nth(1).unwrap_or(&cls).to_string();
-            if is_pre_body(&cls, &full) || (!t.export.is_empty() && !has_export(&t.export)) {
+            if is_pre_body(&cls, &full, t) || (!t.export.is_empty() && !has_export(&t.export)) {
                 row.pre_body += 1;
                 row.class(&format!("before-body:{short}"));
                 "before_body"
@@ -726,6 +772,14 @@ pub fn run(args: &Args) -> i32 {
             let cat = Catalog::build(&w.ledger.sim, &[w.proxy_pkg]);
             let snap = w.ledger.snapshot();
             let mut fz = Fuzzer::new(&cat);
+            // functions that ran while the world was set up (monitored transactions as well)
+            for e in &w.setup_exports {
+                if let Some(ix) = cat.by_export.get(e) {
+                    if ix.len() == 1 {
+                        fz.table.entry(cat.targets[ix[0]].key()).or_default().indirect += 1;
+                    }
+                }
+            }
             for epoch in 0..plan.epochs_per_world {
                 if done >= plan.cases_per_shard || shard.time_up() {
                     break;
